@@ -26,7 +26,7 @@ def parse_type(s):
         k, v = s[5:].split(",", 1)
         return ("dict", parse_type(k), parse_type(v))
     if s.startswith("tuple:"):
-        return ("tuple",) + tuple(parse_type(x) for x in s[6:].split(";"))
+        return ("tuple",) + tuple(parse_type(x) for x in s[6:].split(";") if x)
     if s.startswith("union:"):
         return ("union",) + tuple(parse_type(x) for x in s[6:].split("|"))
     if s.startswith("enum:"):
